@@ -23,7 +23,7 @@ def cases(tier: str):
                                 yield dict(n=n, es=es, seq=seq, res=res, mc=mc, prio=prio, is_async=is_async, ties=1 if q else None)
     n = 4
     for es in shapes(n):
-        for seq in (seq_menu(n)[:3] if q else all_seq(n)):
+        for seq in (seq_menu(n)[:n + 1] if q else all_seq(n)):
             for res in (res_menu(n)[:4] if q else res_menu(n)):
                 for mc in (2, 3):
                     for prio in (((0,) * n, desc_prio(n)) if q else prio_menu(n)):
